@@ -7,7 +7,9 @@
  2. spec -> impl: every vector is replayed: encoders must write the specification's bytes, bulk =
     generic for n >= 1, streaming writer = builder, every decoder reads every encoder (n = 0
     included), wrong element type / format rejected, and an aligned body sent to a borrowing route
-    is borrowed exactly when the specification says the element block is aligned.
+    is borrowed exactly when the specification says the element block is aligned; the blocking and
+    async clients' call_typed_slice_aligned must put the specification's padded body on the wire for
+    every query length (captured by a raw peer).
  3. impl -> spec: random arrays (n <= 4096 and a few up to 2^20) through builders, streaming
     writers and the bulk routes with bulk / aligned / generic request bodies, validated by
     Trace_BeveArray.
